@@ -227,7 +227,10 @@ func runDevice(r *rand.Rand, ops []Op) ([]Case, error) {
 	return res, nil
 }
 
-var jumps = []uint64{1, 1, 1, 2, 3, 62, 63, 64, 65, 66, 127, 128, 129, 8063, 8064, 8065, 8127, 8128, 8129, 8130, 8191, 8192, 8193, 8255, 8256, 8257, 16383, 16384, 16385, 1 << 20, 1 << 32, 1<<32 + 1}
+var jumps = []uint64{1, 1, 1, 2, 3, 62, 63, 64, 65, 66, 127, 128, 129, 8063, 8064, 8065, 8127, 8128, 8129, 8130, 8191, 8192, 8193, 8255, 8256, 8257, 16383, 16384, 16385, 1 << 20, 1 << 32, 1<<32 + 1,
+	// forward jumps whose BLOCK distance is 0 or small modulo 2^8 / 2^16 / 2^32 (a distance kept in a narrower integer
+	// clears too little of the ring: the stale bit of the old counter then shadows the fresh one)
+	1 << 22, 1<<22 + 64, 1<<22 + 8128, 1 << 38, 1<<38 + 1, 1<<38 + 64, 1<<38 + 8000, 2 << 38, 5 << 38, 1 << 46, 1<<54 + 63}
 var backs = []uint64{0, 1, 2, 62, 63, 64, 65, 127, 128, 4000, 8063, 8064, 8065, 8126, 8127, 8128, 8129, 8130, 8191, 8192, 8193, 9000, 16384}
 
 func genHistory(r *rand.Rand, n int) ([]Op, string) {
